@@ -219,7 +219,28 @@ func executeOCSPCheck(ctx context.Context, cert, issuer *x509.Certificate, serve
 		return nil, GenericError{Err: errors.New("OCSP signature required")}
 	}
 
-	return ocsp.ParseResponseForCert(body, cert, issuer)
+	ocspResp, err := ocsp.ParseResponseForCert(body, cert, issuer)
+	if err != nil {
+		return nil, err
+	}
+	// ParseResponseForCert only checks that an embedded responder certificate
+	// is signed by the issuer. A delegated responder must also be authorized
+	// by the issuer for OCSP signing. (See RFC 6960, Section 4.2.2.2)
+	if ocspResp.Certificate != nil && !ocspResp.Certificate.Equal(issuer) && !isOCSPSigner(ocspResp.Certificate) {
+		return nil, GenericError{Err: errors.New("OCSP responder certificate is not authorized for OCSP signing")}
+	}
+	return ocspResp, nil
+}
+
+// isOCSPSigner checks if the certificate has the id-kp-OCSPSigning extended
+// key usage.
+func isOCSPSigner(cert *x509.Certificate) bool {
+	for _, eku := range cert.ExtKeyUsage {
+		if eku == x509.ExtKeyUsageOCSPSigning {
+			return true
+		}
+	}
+	return false
 }
 
 func postRequest(ctx context.Context, req []byte, server string, httpClient *http.Client) (*http.Response, error) {
